@@ -2,7 +2,7 @@
    proof is `exact`.  [step_gff] is the model of one iteration of the importer's loop
    (Model/Import.v): [f0] arrives, _id_handler gives it key [id] (counters become [a]), and [id]
    is already stored. *)
-From GV Require Import Base.Prelude Base.PyStr Model.Bins Model.DB Model.Parser Model.Import Proofs.C05Proofs Proofs.C05Inv.
+From GV Require Import Base.Prelude Base.PyStr Model.Bins Model.DB Model.Parser Model.Import Proofs.C05Proofs Proofs.C05Inv Proofs.C05Links.
 Open Scope Z_scope.
 
 Section C05.
@@ -98,3 +98,16 @@ Theorem C05_merge_candidates_distinct : forall call force spec fs st' key f,
   (length (filter (same_checked force f) (candidates st' key)) <= 1)%nat.
 Proof. exact l_merge_candidates_distinct. Qed.
 Print Assumptions C05_merge_candidates_distinct.
+
+(* "No ... Parent link is lost or invented beyond that, in create_db and in update alike" - level 1, as an invariant of EVERY
+   step under EVERY strategy from ANY stored state: the level-1 rows of the relations table are exactly the Parent values of
+   the stored rows, each filed under the key its row is stored under (l1_exact).  For 'merge' the step needs what
+   C05_merge_candidates_distinct provides (at most one candidate agrees with a newcomer); keys are unique (C04_unique) and
+   attribute keys are unique within a row (they come from a mapping).  Level 2 is C02_history_closed. *)
+Theorem C05_parent_links_exact : forall call force spec strat st f0 st',
+  step_gff call strat force spec st f0 = Ok st' ->
+  NoDup (map r_id (s_rows st)) -> (forall r, In r (s_rows st) -> NoDup (map fst (r_attrs r))) ->
+  (strat = SMerge -> forall id f, (length (filter (same_checked force f) (candidates st id)) <= 1)%nat) ->
+  l1_exact st -> l1_exact st'.
+Proof. exact l_step_links. Qed.
+Print Assumptions C05_parent_links_exact.
